@@ -2,6 +2,7 @@ import VelaVerif.Model.TfliteWriter
 import VelaVerif.Model.TfliteReader
 import VelaVerif.Spec.TfliteFile
 import VelaVerif.Lemmas.TfliteWriter
+import VelaVerif.Lemmas.TfliteReader
 /-!
 # C11 / C14 — the TFLite writer and reader (Model/TfliteWriter.lean, Model/TfliteReader.lean)
 
@@ -245,6 +246,234 @@ theorem buffers_consistent (d : Desc) (enum : List Code) (m : ModelT) (h : write
       have := hlt sg1 hsg1 t1 ht1'
       obtain ⟨i, _, he⟩ := List.mem_map.mp hx2
       omega
+
+/-- **quant_fields_preserved** (d). The quantisation record of a written tensor is a function of that tensor's own
+quantisation alone — never of another tensor's (seeded change C11-r4m2 shared one table between tensors with equal scale and
+zero point): no record when the tensor has none; otherwise min / max / scale / zero point are present exactly when the tensor
+has them, with the same values, and quantized_dimension is the tensor's `quant_dim` (0 for `None`). -/
+theorem quant_fields_preserved (d : Desc) (enum : List Code) (m : ModelT) (h : writeWith d enum = .ok m) :
+    ∃ subs, (subgraphsToWrite d).mapM (prepSub d.tensors) = .ok subs ∧
+      ∀ (k : Nat) ps sg, subs[k]? = some ps → m.subgraphs[k]? = some sg →
+        ∀ (i g : Nat), (sgAll d.tensors ps)[i]? = some g →
+          ∃ td tt, d.tensors[g]? = some td ∧ sg.tensors[i]? = some tt ∧
+            (td.quant = none → tt.quant = none) ∧
+            ∀ q, td.quant = some q → ∃ tq, tt.quant = some tq ∧ tq.min = q.min ∧ tq.max = q.max ∧ tq.scale = q.scale ∧
+              tq.zeroPoint = q.zeroPoint ∧ tq.quantDim = q.quantDim.getD 0 ∧ tq.extra = [] := by
+  obtain ⟨subs, h1, _, hw⟩ := written_tensors d enum m h
+  refine ⟨subs, h1, ?_⟩
+  intro k ps sg hk hs i g hig
+  obtain ⟨td, tt, _, a1, a2, _, _, _, _, a7, _⟩ := (hw k ps sg hk hs).2 i g hig
+  refine ⟨td, tt, a1, a2, ?_, ?_⟩
+  · intro hq; rw [a7, hq]; rfl
+  · intro q hq
+    exact ⟨quantT q, by rw [a7, hq]; rfl, rfl, rfl, rfl, rfl, rfl, rfl⟩
+
+/-- **indices_consistent** (c), the range part spelled out on the file alone: every operator-code index, every operand /
+result / intermediate index, every subgraph input / output index and every buffer index the writer emits is in range (operand
+indices may be −1); buffer 0 carries no data once a subgraph is written; no other buffer is used twice. That each index refers
+to the intended entity is `written_tensors`, `written_operators`, `written_interface`; that table positions and written tensors
+are in one-to-one correspondence is `tensor_indices_bijective`. -/
+theorem indices_consistent (d : Desc) (enum : List Code) (m : ModelT) (h : writeWith d enum = .ok m) :
+    (∀ sg ∈ m.subgraphs,
+      (∀ o ∈ sg.operators, o.opcodeIndex < m.opcodes.length ∧
+        (∃ ins outs im, o.inputs = some ins ∧ o.outputs = some outs ∧ o.intermediates = some im ∧
+          (∀ x ∈ ins, x = -1 ∨ (0 ≤ x ∧ x < sg.tensors.length)) ∧ (∀ x ∈ outs, 0 ≤ x ∧ x < sg.tensors.length) ∧
+          (∀ x ∈ im, 0 ≤ x ∧ x < sg.tensors.length))) ∧
+      (∃ ins outs, sg.inputs = some ins ∧ sg.outputs = some outs ∧ (∀ x ∈ ins, 0 ≤ x ∧ x < sg.tensors.length) ∧
+        (∀ x ∈ outs, 0 ≤ x ∧ x < sg.tensors.length)) ∧
+      (∀ tt ∈ sg.tensors, tt.buffer < m.buffers.length)) ∧
+    (∀ md ∈ m.metadata, md.buffer < m.buffers.length) ∧
+    (m.subgraphs ≠ [] → ∃ b, m.buffers[0]? = some b ∧ b.data = none) ∧
+    ((((m.subgraphs.flatMap (·.tensors)).map (·.buffer)).filter (· ≠ 0)) ++ m.metadata.map (·.buffer)).Nodup := by
+  obtain ⟨b1, b2, b3, b4⟩ := buffers_consistent d enum m h
+  refine ⟨?_, b2, b3, b4⟩
+  obtain ⟨subs, h1, hl, _⟩ := written_tensors d enum m h
+  obtain ⟨subs2, h2, hbij⟩ := tensor_indices_bijective d enum m h
+  obtain ⟨subs3, h3, hops⟩ := written_operators d enum m h
+  obtain ⟨subs4, h4, hif⟩ := written_interface d enum m h
+  have e2 : subs2 = subs := by rw [h1] at h2; exact (Except.ok.inj h2).symm
+  have e3 : subs3 = subs := by rw [h1] at h3; exact (Except.ok.inj h3).symm
+  have e4 : subs4 = subs := by rw [h1] at h4; exact (Except.ok.inj h4).symm
+  rw [e2] at hbij; rw [e3] at hops; rw [e4] at hif
+  intro sg hsg
+  obtain ⟨k, hk⟩ := List.getElem?_of_mem hsg
+  have hkl : k < subs.length := by rw [← hl]; exact (List.getElem?_eq_some_iff.mp hk).1
+  have hps : subs[k]? = some subs[k] := List.getElem?_eq_getElem hkl
+  obtain ⟨_, hlen, _⟩ := hbij k _ sg hps hk
+  have hR : ∀ (l₁ : List Nat) (l₂ : List Int),
+      List.Forall₂ (fun g (i : Int) => ∃ n : Nat, i = n ∧ (sgAll d.tensors subs[k])[n]? = some g) l₁ l₂ →
+      ∀ x ∈ l₂, 0 ≤ x ∧ x < sg.tensors.length := by
+    intro l₁ l₂ hf
+    induction hf with
+    | nil => intro x hx; simp at hx
+    | cons hab _ ih =>
+      intro x hx
+      rcases List.mem_cons.mp hx with rfl | hx'
+      · obtain ⟨n, rfl, hn⟩ := hab
+        have := (List.getElem?_eq_some_iff.mp hn).1
+        rw [hlen]; omega
+      · exact ih x hx'
+  refine ⟨?_, ?_, b1 sg hsg⟩
+  · intro o ho
+    obtain ⟨j, hj⟩ := List.getElem?_of_mem ho
+    obtain ⟨hol, hof⟩ := hops k _ sg hps hk
+    have hjl : j < ((sgOps subs[k]).filter (!·.ignored)).length := by rw [← hol]; exact (List.getElem?_eq_some_iff.mp hj).1
+    obtain ⟨⟨c, oc, _, c2, _⟩, ⟨ins, i1, i2, i3⟩, ⟨outs, o1, o2⟩, ⟨im, m1, m2⟩, _⟩ := hof j _ o (List.getElem?_eq_getElem hjl) hj
+    refine ⟨(List.getElem?_eq_some_iff.mp c2).1, ins, outs, im, i1, o1, m1, ?_, hR _ _ o2, hR _ _ m2⟩
+    intro x hx
+    obtain ⟨q, hq⟩ := List.getElem?_of_mem hx
+    have hql : q < (((sgOps subs[k]).filter (!·.ignored))[j]).inputs.length := by rw [← i2]; exact (List.getElem?_eq_some_iff.mp hq).1
+    cases hpq : (((sgOps subs[k]).filter (!·.ignored))[j]).inputs[q]'hql with
+    | none =>
+      have := (i3 q).1 (by rw [List.getElem?_eq_getElem hql, hpq])
+      rw [hq] at this; left; exact Option.some.inj this
+    | some g =>
+      obtain ⟨i, hi, hgi⟩ := (i3 q).2 g (by rw [List.getElem?_eq_getElem hql, hpq])
+      rw [hq] at hi
+      have := (List.getElem?_eq_some_iff.mp hgi).1
+      right; rw [Option.some.inj hi, hlen]; omega
+  · obtain ⟨⟨ins, i1, i2⟩, ⟨_, outs, _, o1, o2⟩, _⟩ := hif k _ sg hps hk
+    exact ⟨ins, outs, i1, o1, hR _ _ i2, hR _ _ o2⟩
+
+/-! ## (a) reading what the writer produced
+
+`read_write_roundtrip_partial`: the full statement would be `Reader.read (write d) ≃ d` for an equivalence of graph descriptions
+up to tensor order and buffer numbering. Proved are its three layers on the file the writer produced — tensor records, operator
+code entries, operand references — each read back with the reader's own functions (`parseTensor`, `parseOpCode`, `resolve`) to
+the description's own entity; plus what the writer's `__init__` does to the graph-side operand lists under the live tables
+(`written_operand_order`). Not proved: the assembly of these layers through the reader's graph surgery (reshaped clones of
+constant weights with `src_tensor`, Const / Placeholder producers, virtual outputs, de-duplication of the input / output lists)
+into one statement about `Reader.read`; that part is compared with the real reader on generated files, and the loop
+`write ∘ read` is evaluated by the model on every generated file (harness/writer_stage.py, request `wloop`). -/
+
+/-- table fact: every element type the writer can emit (`datatype_inv_map`) is one the reader knows (`datatype_map`) -/
+theorem written_dtypes_readable :
+    WriterTbl.dtypeInv.all (fun nc => (WriterTbl.dtypeMap.find? (·.1 == nc.2)).isSome) = true := by decide +kernel
+
+/-- **read_write_roundtrip (tensors).** Reading back position `i` of a written tensor table gives the `i`-th tensor of the
+writer's list with: the name, the written shape, the element type (by its reader-side name: `quint8` comes back as `uint8`),
+the quantisation after the reader's normalisation of what the writer emitted (`readQuant ∘ quantT`: nothing when neither
+scale nor zero point was present, zero points 0 for a scale without zero points, quantized_dimension 0 for `None`), the
+constant data (zero-length data = none), the variable flag — provided the constant data has the size of the written shape
+(`checkData`, the reader's `reshape`). Allocation attributes (memory area / type, address, purpose, `src_tensor`) are not in
+the file and come back as the defaults. -/
+theorem read_write_roundtrip_tensors (d : Desc) (enum : List Code) (m : ModelT) (h : writeWith d enum = .ok m) :
+    ∃ subs, (subgraphsToWrite d).mapM (prepSub d.tensors) = .ok subs ∧
+      ∀ (k : Nat) ps sg, subs[k]? = some ps → m.subgraphs[k]? = some sg →
+        ∀ (i g : Nat), (sgAll d.tensors ps)[i]? = some g →
+          ∃ td tt row, d.tensors[g]? = some td ∧ sg.tensors[i]? = some tt ∧ Reader.dtypeRow tt.type = .ok row ∧
+            dtypeCode td.dtype = some row.1 ∧
+            (Reader.checkData row.2.1 row.2.2.2.2 (Spec.writtenShape td) (Writer.normValues td.values) = .ok () →
+              Reader.parseTensor (m.buffers.map Reader.parseBuffer) tt = .ok
+                { name := td.name, shape := Spec.writtenShape td, originalShape := Spec.writtenShape td, dtype := row.2.1,
+                  quant := Reader.readQuant (td.quant.map quantT), values := Writer.normValues td.values, isVariable := td.isVariable,
+                  purpose := 0, memArea := 0, memType := 0, address := none, src := none,
+                  range := if (Reader.readQuant (td.quant.map quantT)).isSome then Reader.rangeOf row.2.1 row.2.2.1 else none }) := by
+  obtain ⟨subs, h1, _, hw⟩ := written_tensors d enum m h
+  refine ⟨subs, h1, ?_⟩
+  intro k ps sg hk hs i g hig
+  obtain ⟨td, tt, b, a1, a2, a3, a4, a5, a6, a7, a8, _, a10⟩ := (hw k ps sg hk hs).2 i g hig
+  -- the reader knows the element type
+  have hmem : (td.dtype, tt.type) ∈ WriterTbl.dtypeInv := by
+    unfold dtypeCode at a6
+    obtain ⟨x, hx, hx2⟩ := Option.map_eq_some_iff.mp a6
+    have hp := List.find?_some hx
+    have : x = (td.dtype, tt.type) := by
+      cases x; simp at hp hx2; simp [hp, hx2]
+    rw [← this]; exact List.mem_of_find?_eq_some hx
+  have hrow := List.all_eq_true.mp written_dtypes_readable _ hmem
+  obtain ⟨row, hr⟩ := Option.isSome_iff_exists.mp hrow
+  have hr1 : row.1 = tt.type := by simpa using List.find?_some hr
+  have hdr : Reader.dtypeRow tt.type = .ok row := by
+    unfold Reader.dtypeRow
+    simp only at hr
+    rw [hr]; rfl
+  refine ⟨td, tt, row, a1, a2, hdr, by rw [hr1]; exact a6, ?_⟩
+  intro hcd
+  unfold Reader.parseTensor
+  have hbuf : Reader.bufferOf (m.buffers.map Reader.parseBuffer) tt.buffer = .ok (Writer.normValues td.values) := by
+    unfold Reader.bufferOf
+    simp only [List.getElem?_map, a3, Option.map_some]
+    unfold Writer.normValues
+    cases b; simp at a10; subst a10; rfl
+  simp only [hdr, hbuf, a5, a4, a7, a8, Option.getD_some, hcd, bind, Except.bind, pure, Except.pure]
+
+/-- **read_write_roundtrip (operator codes).** The reader maps a written operator-code entry back to the operator type it was
+written for (the Ethos-U operator `CustomNpuOp` comes back as a `Custom` operator with custom code "ethos-u"), with the same
+version, the custom code exactly for CUSTOM entries, and the option serialiser / operand index triple of that type. -/
+theorem read_write_roundtrip_opcodes (c : Code) (oc : OpCodeT) (info : OpInfo) (hi : lookupOpId c.opId = some info)
+    (h : serialiseOpCode c = .ok oc) :
+    ∃ rc tf ser wt, Reader.parseOpCode oc = .ok rc ∧ info.inv = some (tf, ser, wt) ∧ rc.version = c.version ∧
+      rc.op.name = (if info.name = "CustomNpuOp" then "Custom" else info.name) ∧
+      (info.name ≠ "CustomNpuOp" → rc.op = info) ∧
+      rc.custom = (if info.name = "Custom" then some c.custom else if info.name = "CustomNpuOp" then some ethosU else none) ∧
+      rc.hasSer = ser ∧ rc.indices = wt :=
+  opcode_roundtrip c oc info hi h
+
+/-- **read_write_roundtrip (operands).** The reader resolves the operand indices of a written operator (`parse_operator`:
+`self.tensors[idx] if idx != -1 else None`, tensors numbered from `base`) to `None` exactly where the graph has `None` and
+otherwise to the table position of the very tensor the graph has there. -/
+theorem read_write_roundtrip_operands (d : Desc) (enum : List Code) (m : ModelT) (h : writeWith d enum = .ok m) :
+    ∃ subs, (subgraphsToWrite d).mapM (prepSub d.tensors) = .ok subs ∧
+      ∀ (k : Nat) ps sg, subs[k]? = some ps → m.subgraphs[k]? = some sg →
+        ∀ (j : Nat) p o, ((sgOps ps).filter (!·.ignored))[j]? = some p → sg.operators[j]? = some o → ∀ base : Nat,
+          ∃ ins rs, o.inputs = some ins ∧ ins.mapM (Reader.resolve base sg.tensors.length) = .ok rs ∧ rs.length = p.inputs.length ∧
+            ∀ (q : Nat), (p.inputs[q]? = some none → rs[q]? = some none) ∧
+              ∀ g, p.inputs[q]? = some (some g) → ∃ i : Nat, rs[q]? = some (some (base + i)) ∧ (sgAll d.tensors ps)[i]? = some g := by
+  obtain ⟨subs, h1, hw⟩ := written_operators d enum m h
+  obtain ⟨subs', h1', hb⟩ := tensor_indices_bijective d enum m h
+  have : subs' = subs := by rw [h1] at h1'; exact (Except.ok.inj h1').symm
+  subst this
+  refine ⟨subs', h1, ?_⟩
+  intro k ps sg hk hs j p o hj ho base
+  obtain ⟨_, hlen, _⟩ := hb k ps sg hk hs
+  obtain ⟨_, ⟨ins, hi1, hi2, hi3⟩, _⟩ := (hw k ps sg hk hs).2 j p o hj ho
+  -- every written index resolves
+  have hres : ∀ a ∈ ins, ∃ b, Reader.resolve base sg.tensors.length a = .ok b := by
+    intro a ha
+    obtain ⟨q, hq⟩ := List.getElem?_of_mem ha
+    have hql : q < p.inputs.length := by rw [← hi2]; exact (List.getElem?_eq_some_iff.mp hq).1
+    cases hpq : p.inputs[q]'hql with
+    | none =>
+      have := (hi3 q).1 (by rw [List.getElem?_eq_getElem hql, hpq])
+      rw [hq] at this; obtain rfl := Option.some.inj this
+      exact ⟨none, resolve_minus1 _ _⟩
+    | some g =>
+      obtain ⟨i, hi, hgi⟩ := (hi3 q).2 g (by rw [List.getElem?_eq_getElem hql, hpq])
+      rw [hq] at hi; obtain rfl := Option.some.inj hi
+      have hil : i < sg.tensors.length := by rw [hlen]; exact (List.getElem?_eq_some_iff.mp hgi).1
+      exact ⟨_, resolve_nat base _ i hil⟩
+  obtain ⟨rs, hrs⟩ := mapM_of_pointwise _ ins hres
+  obtain ⟨rl, rf⟩ := mapM_ok _ _ _ hrs
+  refine ⟨ins, rs, hi1, hrs, by rw [rl, hi2], ?_⟩
+  intro q
+  constructor
+  · intro hq
+    have hiq := (hi3 q).1 hq
+    obtain ⟨b, hb1, hb2⟩ := rf q _ hiq
+    rw [resolve_minus1] at hb2
+    rw [hb1, ← Except.ok.inj hb2]
+  · intro g hq
+    obtain ⟨i, hi, hgi⟩ := (hi3 q).2 g hq
+    have hil : i < sg.tensors.length := by rw [hlen]; exact (List.getElem?_eq_some_iff.mp hgi).1
+    obtain ⟨b, hb1, hb2⟩ := rf q _ hi
+    rw [resolve_nat base _ i hil] at hb2
+    exact ⟨i, by rw [hb1, ← Except.ok.inj hb2], hgi⟩
+
+/-- table facts (regenerated `Op`, `builtin_operator_map`, `builtin_operator_inv_map`): names and sort keys identify the operator
+type; whatever the writer can serialise the reader maps back to the same type, serialiser and index triple; graph-side and
+TFLite-side operand orders coincide for every operator type -/
+theorem live_op_tables_consistent : opTable.all OpInfo.tableOk = true := op_table_ok
+
+/-- **written_operand_order.** Under the live tables `__init__` keeps an operator's type, custom code, version, results,
+intermediates and option payload, and its operand list — except that a convolution-like operator with constant weights gets the
+`src_tensor` of every operand other than its IFM (`restoredInputs`); an operator that is written has a serialiser entry. -/
+theorem written_operand_order (ts : List TensorD) (op : OpD) (p : POp) (h : prepOp ts op = .ok p) :
+    p.info.name = op.type ∧ p.custom = op.customCode ∧ p.version = op.version ∧ p.outputs = op.outputs ∧
+    p.intermediates = op.intermediates ∧ p.payload = op.payload ∧ p.ignored = WriterTbl.opsToIgnore.contains op.type ∧
+    (p.ignored = false → p.info.inv.isSome) ∧
+    restoredInputs ts p.info op.inputs = .ok p.inputs :=
+  prepOp_ok ts op p h
 
 /-! ## (e) the reader's representable ranges -/
 
